@@ -34,6 +34,7 @@ type iterMon struct {
 	mutCalled  bool // some mutating method has been called since Iterate(): a panic is acceptable from now on
 	mustPanic  bool // an element was added or removed while under way: the very next Next must panic
 	exhausted  bool // exhaustion has been reported
+	refused    bool // some call on the container panicked (was refused) since Iterate(); it changed nothing
 }
 
 func newIterMon(positional bool, s0 []int) *iterMon {
@@ -69,6 +70,8 @@ func (m *iterMon) phase() string {
 		return "must-panic"
 	case m.mutCalled:
 		return "after-mutating-call"
+	case m.refused:
+		return "after-refused-call"
 	default:
 		return "unchanged"
 	}
@@ -91,6 +94,9 @@ func (m *iterMon) observe(out outcome, id int) (sig, what string) {
 	m.mustPanic = false
 	switch out {
 	case oPanic:
+		if !m.mutCalled && m.refused {
+			return "iterator-panics-after-refused-call", "Next panicked although the only calls since Iterate() were pure reads and calls that panicked themselves (refused: nothing was modified)"
+		}
 		if !m.mutCalled {
 			return "panic-unchanged", "Next panicked although no mutating method has been called since Iterate()"
 		}
@@ -389,7 +395,16 @@ func (s *scenario) apply(o op) {
 	if p == nil && o.after != nil {
 		o.after()
 	}
-	if o.mutating {
+	// A call that panicked was refused: it modified nothing (the reads below confirm the contents),
+	// so it leaves every iterator exactly as obliged as before. Only a mutating method that
+	// returned normally - even one that turned out to be a no-op - makes a panic acceptable.
+	switch {
+	case p != nil:
+		s.count("refused calls", s.drv.kind()+": "+o.label)
+		for _, it := range s.its {
+			it.mon.refused = true
+		}
+	case o.mutating:
 		for _, it := range s.its {
 			it.mon.onMutCall(o.addRemove)
 		}
